@@ -37,6 +37,8 @@ def main():
             return None
         if t in ("bool", "int", "str"):
             return j["v"]
+        if t == "npint":
+            return np.int64(j["v"])
         if t == "float":
             return np.float64(j["v"]) if req.get("np_floats") else float(j["v"])
         if t == "ref":
